@@ -5,6 +5,7 @@ package main
 
 import (
 	"bytes"
+	"crypto/sha256"
 	"encoding/base64"
 	"encoding/xml"
 	"errors"
@@ -19,6 +20,7 @@ import (
 	"strings"
 	"time"
 
+	"github.com/beevik/etree"
 	"github.com/crewjam/saml"
 	"github.com/crewjam/saml/logger"
 	"github.com/crewjam/saml/samlidp"
@@ -101,6 +103,7 @@ func (c *Ctx) genC09() {
 	c.c09Fuzz()
 	c.c09Bombs()
 	c.c09Metadata()
+	c.c09Fingerprint()
 	c.c09Resolver()
 	c.c09KeyDescriptors()
 }
@@ -370,6 +373,84 @@ func (c *Ctx) c09Metadata() {
 		}
 	}
 	c.emitOneWay("fuzz", []string{encStr("metadata-parts")}, "done", "")
+}
+
+// c09Fingerprint: the certificate-fingerprint configuration reads the certificate out of the message before any signature check;
+// every shape of that element (absent, empty, comment inside, element inside, two text nodes, garbage) must end in an error, on every
+// entry point that validates a signature.
+func (c *Ctx) c09Fingerprint() {
+	cfg := baseCfg()
+	now := ms(baseTime)
+	mkSP := func() *saml.ServiceProvider {
+		s := c.realSP(cfg)
+		s.IDPMetadata.IDPSSODescriptors[0].KeyDescriptors = nil
+		sum := sha256.Sum256(c.key("idp").Cert.Raw)
+		var parts []string
+		for _, b := range sum {
+			parts = append(parts, fmt.Sprintf("%02X", b))
+		}
+		fp, alg := strings.Join(parts, ":"), "http://www.w3.org/2001/04/xmlenc#sha256"
+		s.IDPCertificateFingerprint, s.IDPCertificateFingerprintAlgorithm = &fp, &alg
+		return s
+	}
+	shapes := []string{"intact", "empty", "comment-only", "text+comment", "element-inside", "garbage", "no-x509data", "no-keyinfo", "two-certificates", "foreign-namespace-signature-first"}
+	b := &builder{c: c, spCert: c.key("sp").Cert, badCert: c.key("sp2").Cert}
+	for _, layout := range []string{"resp-signed", "assn-signed"} {
+		for _, shape := range shapes {
+			r := baseResp(cfg, now)
+			if layout == "resp-signed" {
+				r.Sig, r.Entries[0].Sig = "idp", "none"
+			}
+			el := b.responseEl(r).Copy() // Copy re-parents the appended Signature
+			for _, x := range el.FindElements(".//X509Certificate") {
+				switch shape {
+				case "empty":
+					for len(x.Child) > 0 {
+						x.RemoveChildAt(0)
+					}
+				case "comment-only":
+					for len(x.Child) > 0 {
+						x.RemoveChildAt(0)
+					}
+					x.AddChild(etree.NewComment("c"))
+				case "text+comment":
+					x.AddChild(etree.NewComment("c"))
+				case "element-inside":
+					t := x.Text()
+					for len(x.Child) > 0 {
+						x.RemoveChildAt(0)
+					}
+					x.CreateElement("ds:X").SetText(t)
+				case "garbage":
+					x.SetText("!!!")
+				case "no-x509data":
+					x.Parent().Parent().RemoveChild(x.Parent())
+				case "no-keyinfo":
+					ki := x.Parent().Parent()
+					ki.Parent().RemoveChild(ki)
+				case "two-certificates":
+					x.Parent().AddChild(x.Copy())
+				case "foreign-namespace-signature-first":
+					e := etree.NewElement("evil:Signature")
+					e.CreateAttr("xmlns:evil", "urn:evil")
+					e.CreateElement("evil:KeyInfo").CreateElement("evil:X509Data").CreateElement("evil:X509Certificate")
+					sig := x.Parent().Parent().Parent()
+					sig.Parent().InsertChildAt(0, e)
+				}
+				break
+			}
+			xmlb := elBytes(el)
+			setGlobals(cfg, now)
+			s := mkSP()
+			res := withTimeout(func() string {
+				return safely(func() string { return canonParse(s.ParseXMLResponse(xmlb, []string{"id-req1"}, mustURL(cfg.Acs))) })
+			}, 10*time.Second)
+			orc := panicOracle(res, "ParseXMLResponse/fingerprint")
+			c.count("c09-fingerprint", layout+"/"+shape+"/"+strings.SplitN(res, " ", 2)[0])
+			c.units++
+			c.emitOneWay("fuzz", []string{encStr("ParseXMLResponse/fingerprint:" + layout + "/" + shape)}, strings.SplitN(res, " ", 2)[0], orc)
+		}
+	}
 }
 
 func (c *Ctx) c09Bombs() {
